@@ -56,16 +56,18 @@ func Profiles(prop string) []Profile {
 	switch prop {
 	case "C11":
 		return []Profile{
-			{MinN: 2, MaxN: 7, Steps: 40, Dups: true},
+			{MinN: 2, MaxN: 7, Steps: 40, Dups: true, Withdraws: true},
 			{MinN: 2, MaxN: 6, Steps: 50, Dups: true, Expiry: true},
 			{MinN: 3, MaxN: 6, Steps: 50, Dups: true, Dynamic: true},
-			{MinN: 3, MaxN: 6, Steps: 60, Dups: true, Dynamic: true, Expiry: true},
+			{MinN: 3, MaxN: 6, Steps: 60, Dups: true, Dynamic: true, Expiry: true, Withdraws: true},
 		}
 	case "C12":
 		return []Profile{
 			{MinN: 2, MaxN: 8, Steps: 30},
-			{MinN: 2, MaxN: 7, Steps: 40, Dups: true},
+			{MinN: 2, MaxN: 7, Steps: 40, Dups: true, Withdraws: true},
 			{MinN: 2, MaxN: 6, Steps: 30, Routes: 6},
+			// late joiners learning from full-table replays only
+			{MinN: 3, MaxN: 6, Steps: 40, Dynamic: true},
 			// hop limits at the boundary (limit = diameter and its neighbours) on trees and chains
 			{MinN: 2, MaxN: 7, Steps: 25, Tree: true, Limits: 3},
 			{MinN: 2, MaxN: 7, Steps: 25, Chain: true, Limits: 3, Dups: true},
@@ -80,7 +82,7 @@ func Profiles(prop string) []Profile {
 	case "C14":
 		return []Profile{
 			{MinN: 3, MaxN: 6, Steps: 60, Dynamic: true},
-			{MinN: 3, MaxN: 6, Steps: 60, Dynamic: true, Dups: true},
+			{MinN: 3, MaxN: 6, Steps: 60, Dynamic: true, Dups: true, Withdraws: true},
 			{MinN: 2, MaxN: 6, Steps: 50, Dynamic: true, Expiry: true, Dups: true},
 			// small uniform hop limits with connects/replays: relays exactly at the limit
 			{MinN: 4, MaxN: 7, Steps: 60, Dynamic: true, Limits: 1},
@@ -135,7 +137,7 @@ func Main(t *testing.T, prop string) {
 		}
 		if full {
 			coq = append(coq, CoqCase(cs, obs))
-		} else {
+		} else if !cs.NoModel {
 			coq = append(coq, CoqDCase(cs, obs))
 		}
 		if os.Getenv("FLOODNET_DUMP") != "" {
@@ -203,6 +205,10 @@ func Main(t *testing.T, prop string) {
 				}
 			}
 			c.Res.Extra["exhaustive"] = "all connected labelled topologies on 2..5 nodes (one seeded schedule each)"
+		}
+		for _, w := range LateWitnesses(prop) {
+			one(w, nil)
+			c.Count("late-witness")
 		}
 		if prop == "C11" {
 			stress(c.N(6000, 30000))
